@@ -304,8 +304,159 @@ def r07_e(prog: Program, chk: Check) -> None:
         raise AnchorError("Signature.can_assign: consumed_* bookkeeping not found")
 
 
+# ------------------------------------------------------------------- R07.f
+def _compat_chunk(args):
+    expected_sigs, actual_max, pool, max_pos, max_kw = args
+    from ..model import Program as _P
+    from . import compat_model as cm
+    from .binder_model import signatures
+
+    model = cm.CompatModel(_P())
+    shapes = cm.call_shapes(max_pos, max_kw, pool)
+    actuals = [an for a in signatures(actual_max) for an in cm.named_variants(a, pool)]
+    classes: Dict[str, Dict[str, object]] = {}
+    pairs = accepted = 0
+    for e in expected_sigs:
+        en = cm.default_names(e)
+        ebinds = [c for c in shapes if cm.outcome(en, c[0], c[1]) == "binds"]
+        ekind = {n: k for k, _, n in en}
+        has_vk = any(k == "VAR_KEYWORD" for k, _, _ in en)
+        for an in actuals:
+            pairs += 1
+            log: List[Tuple[str, str]] = []
+            ok, _msg = model.accepts(en, an, log)
+            if not ok:
+                continue
+            accepted += 1
+            bad = None
+            checked = set(log)
+            akind = {n: k for k, _, n in an}
+            unchecked = None
+            for c in ebinds:
+                o = cm.outcome(an, c[0], c[1])
+                if o != "binds":
+                    bad = bad or (c, o)
+                    continue
+                if unchecked is None:
+                    for fl in cm.flows(en, an, c[0], c[1]):
+                        if fl not in checked:
+                            unchecked = (c, fl)
+                            break
+            # R07.g: every value flow of a commonly bound call shape was type-checked
+            gkey = "flows-checked"
+            if unchecked is not None:
+                (npos_, kws_), (aslot, eslot) = unchecked
+                gkey = f"unchecked-flow::into-actual-{akind.get(aslot[2:], '?')}::from-expected-{ekind.get(eslot[2:], '?')}"
+            g_ = classes.setdefault("G|" + gkey, {"n": 0, "witness": []})
+            g_["n"] += 1  # type: ignore[operator]
+            if unchecked is not None:
+                (npos_, kws_), (aslot, eslot) = unchecked
+                call = "f(" + ", ".join([f"a{i}" for i in range(npos_)] + [f"{k}=v" for k in kws_]) + ")"
+                w = g_["witness"]
+                w.append((len(cm.fmt(en)) + len(cm.fmt(an)), cm.fmt(en), cm.fmt(an), call, f"the argument typed by the expected slot {eslot[2:]} reaches the actual slot {aslot[2:]}; no can_assign between their annotations was evaluated"))  # type: ignore[union-attr]
+                w.sort()  # type: ignore[union-attr]
+                del w[6:]  # type: ignore[arg-type]
+            key = "sound"
+            if bad is not None:
+                (npos, kws), o = bad
+                if o == "multiple-values":
+                    amap = {n: i for i, (k, _, n) in enumerate(an) if k in ("POSITIONAL_OR_KEYWORD", "KEYWORD_ONLY")}
+                    apos = [i for i, (k, _, _) in enumerate(an) if k in ("POSITIONAL_ONLY", "POSITIONAL_OR_KEYWORD")][:npos]
+                    culprit = next((k for k in kws if k in amap and amap[k] in apos), "?")
+                    via = ekind.get(culprit, "**kwargs" if has_vk else "?")
+                    if via == "POSITIONAL_ONLY":
+                        via = "**kwargs"  # a positional-only parameter's name, passed by keyword, lands in **kwargs
+                    key = f"unsound::multiple-values::keyword-accepted-by-expected-through-{via}"
+                else:
+                    key = f"unsound::{o}"
+            c_ = classes.setdefault(key, {"n": 0, "witness": []})
+            c_["n"] += 1  # type: ignore[operator]
+            if bad is not None:
+                (npos, kws), o = bad
+                call = "f(" + ", ".join([f"a{i}" for i in range(npos)] + [f"{k}=v" for k in kws]) + ")"
+                w = c_["witness"]
+                w.append((len(cm.fmt(en)) + len(cm.fmt(an)), cm.fmt(en), cm.fmt(an), call, o))  # type: ignore[union-attr]
+                w.sort()  # type: ignore[union-attr]
+                del w[6:]  # type: ignore[arg-type]
+    return pairs, accepted, classes
+
+
+def r07_f(prog: Program, chk: Check) -> None:
+    import multiprocessing as mp
+    import os as _os
+
+    from . import compat_model as cm
+    from .binder_model import signatures
+
+    if _os.environ.get("VERIF_SELFTEST"):
+        emax, amax, pool = 2, 3, cm.POOL[:3] + ("q",)
+    elif chk.tier == "thorough":
+        emax, amax, pool = 4, 3, cm.POOL
+    else:
+        emax, amax, pool = 3, 3, cm.POOL
+    chk.rule(
+        "R07.f",
+        "callable compatibility as a finite model: Signature.can_assign is interpreted from its AST (all annotations mutually compatible) for every pair of "
+        f"def-legal signatures (expected up to {emax} parameters, actual up to {amax} with every injective naming from {list(pool)}); every accepted pair must satisfy: "
+        "each call shape (<= 3 positionals, <= 3 keywords) that binds to the expected signature binds to the actual one",
+        floor=1,
+    )
+    chk.rule(
+        "R07.g",
+        "parameter contravariance as a flow property of the same model: annotations are tokens that record every `X.can_assign(Y)`; for each accepted pair and each call shape "
+        "that binds in both signatures, the pair (actual slot that receives the argument, expected slot that types it) must be among the recorded checks",
+        floor=1,
+    )
+    exp = list(signatures(emax))
+    procs = 2 if _os.environ.get("VERIF_SELFTEST") else min(16, _os.cpu_count() or 1)
+    chunks = [(exp[i :: procs * 3], amax, pool, 3, 3) for i in range(procs * 3)]
+    chunks = [c for c in chunks if c[0]]
+    with mp.get_context("fork").Pool(procs) as pl:
+        results = pl.map(_compat_chunk, chunks)
+    pairs = accepted = 0
+    merged: Dict[str, Dict[str, object]] = {}
+    for p_, a_, classes in results:
+        pairs += p_
+        accepted += a_
+        for k, c in classes.items():
+            m = merged.setdefault(k, {"n": 0, "witness": []})
+            m["n"] += c["n"]  # type: ignore[operator]
+            m["witness"] = sorted(list(m["witness"]) + list(c["witness"]))[:6]  # type: ignore[arg-type]
+    chk.model_evaluations += pairs
+    chk.analysed["compat_model"] = {"pairs_interpreted": pairs, "accepted_pairs": accepted, "expected_max_params": emax, "actual_max_params": amax, "name_pool": list(pool), "call_shapes_per_pair": len(cm.call_shapes(3, 3, pool))}
+    site = prog.site("signature", prog.func("signature", "Signature.can_assign"))
+    if accepted == 0:
+        raise AnchorError("compat model: no pair is accepted (model broken)")
+    merged.setdefault("sound", {"n": 0, "witness": []})
+    merged.setdefault("G|flows-checked", {"n": 0, "witness": []})
+    for k, c in sorted(merged.items()):
+        if k.startswith("G|"):
+            wit = [{"expected": w[1], "actual": w[2], "call": w[3], "detail": w[4]} for w in c["witness"]]  # type: ignore[union-attr]
+            chk.ob(
+                "R07.g",
+                f"signature::Signature.can_assign::model::{k[2:]}",
+                k == "G|flows-checked",
+                site,
+                f"{c['n']} accepted pairs in this class" + (f"; smallest: expected {wit[0]['expected']} accepts actual {wit[0]['actual']}: in {wit[0]['call']} {wit[0]['detail']}" if wit else ""),
+                witness=wit,
+            )
+            continue
+        wit = [{"expected": w[1], "actual": w[2], "call": w[3], "actual_outcome": w[4]} for w in c["witness"]]  # type: ignore[union-attr]
+        ok = k == "sound"
+        chk.ob(
+            "R07.f",
+            f"signature::Signature.can_assign::model::{k}",
+            ok,
+            site,
+            f"{c['n']} accepted pairs in this class (of {accepted} accepted, {pairs} interpreted)"
+            + (f"; smallest: expected {wit[0]['expected']} accepts actual {wit[0]['actual']}, but {wit[0]['call']} binds to the expected signature and gives {wit[0]['actual_outcome']} in the actual one" if wit else ""),
+            witness=wit,
+        )
+
+
 def run(prog: Program, chk: Check) -> None:
     r07_e(prog, chk)
     r07_a(prog, chk)
     r07_b(prog, chk)
     r07_c(prog, chk)
+    r07_f(prog, chk)
